@@ -114,6 +114,13 @@ fn run_g<A: SxK>(c: &Case, out: &mut Out) {
                 out.check(matches!(&d, Ok((t, (l, e))) if *t == text && *l == k && !*e), || {
                     (format!("{cn}/kmer<{sn}>/display-or-len-wrong"), format!("k-mer of {text}: display/len/is_empty = {:?}", d))
                 });
+                // a write that failed earlier (on this thread) leaves nothing behind
+                out.stage = "Kmer display after a failed write";
+                let other = pack_u128(&codes(&content.iter().rev().copied().collect::<Vec<A>>()), bits);
+                let da = out.catch(|| api.display_after_failed_write(other, want));
+                out.check(da.as_deref() == Ok(text.as_str()), || {
+                    (format!("{cn}/kmer<{sn}>/display-after-a-failed-write-is-wrong"), format!("after formatting another k-mer into a sink that failed, {text} displays as {:?}", da))
+                });
                 // width / alignment flags pad the whole k-mer (or are ignored); they never break it up
                 out.stage = "Kmer display with width flags";
                 let pd = out.catch(|| api.display_padded(want, k + 3));
